@@ -3,7 +3,7 @@ package c20
 // Clause (a), worker counts: "every pixel is rendered exactly once regardless of worker count".
 // The renderers size their worker pool with runtime.NumCPU, which a process cannot change once it
 // runs.  The sampler check is therefore re-run in a child process of this very test binary under
-// `taskset -c 0-(k-1)` (k in {1, 2, 5}); the child evaluates the case through the harness's replay
+// `taskset -c 0-(k-1)` (k in {1, 2, 4, 5, 6}); the child evaluates the case through the harness's replay
 // mode (VERIF_REPLAY) with the full recording oracle of checkSampler and reports its verdict on
 // stdout.  The image sizes are chosen below, equal to and above k.
 
@@ -32,7 +32,7 @@ type workersCase struct {
 
 func genWorkers(t *rapid.T) workersCase {
 	c := workersCase{samplerCase: genSampler(t)}
-	c.CPUs = rapid.SampledFrom([]int{1, 2, 5}).Draw(t, "cpus")
+	c.CPUs = rapid.SampledFrom([]int{1, 2, 4, 5, 6}).Draw(t, "cpus") // 4 and 6 factor into images without a one-pixel axis
 	k := c.CPUs
 	switch gen.Int(t, 0, 4, "sizeclass.k") {
 	case 0: // as many pixels as workers, or one more / one fewer
